@@ -36,7 +36,7 @@ def main():
         res = common.Result(pid)
         res.analysed["modules_parsed"] = len(repo.mods)
         extra = mod.run(repo, res, tier) or {}
-        if tier == "thorough" and hasattr(mod, "selftest"):
+        if tier == "thorough":
             import selftest
             st = selftest.run_for(pid, mod, seed)
             extra["selftest"] = st
